@@ -137,7 +137,7 @@ def model(draw, flavour=None, max_blocks=10):
     for nm in rnames:
         nad = draw(SF([None, 0, 0, 1, 2, 2]))
         r = {'name': nm, 'nad': nad, 'density': draw(pos(1, 1e4)), 'porosity': draw(pos(1e-4, 1.0)),
-             'k1': draw(pos(1e-20, 1e-9)), 'k2': draw(pos(1e-20, 1e-9)), 'k3': draw(pos(1e-20, 1e-9)),
+             'k1': draw(pos(1e-20, 1e-9)), 'k2': draw(opt(pos(1e-20, 1e-9), 8)), 'k3': draw(opt(pos(1e-20, 1e-9), 8)),      # (blank k2 / k3: legal)
              'conductivity': draw(pos(0.1, 10)), 'specific_heat': draw(pos(100, 5000))}
         if nad and nad >= 1:
             for k in ('compressibility', 'expansivity', 'dry_conductivity', 'tortuosity'):
